@@ -31,8 +31,6 @@ AUDITED = [
      "called from MetricsInner::new with a Vec built from exactly SIZE_FOR_EACH_TYPE elements"),
     (r"^ttl::Time::unix", "std-op", r"Add>::add\(d, self\.d\)",
      "epoch offset + TTL overflows only for TTLs beyond ~5.8e11 years; a TTL is not a builder parameter (C20) and C03 ranges over sub-second to hours"),
-    (r"^ttl::Time::get_ttl$", "std-op", r"Sub>::sub\(self\.d, ",
-     "self.d - elapsed is evaluated only on the else branch of `elapsed >= self.d`"),
     (r"^<TransparentHasher as std::hash::Hasher>::write$", "std-op", r"copy_from_slice",
      "both copies are between slices of equal length: data (8 bytes) <- bytes[..8], data[..bytes.len()] <- bytes with bytes.len() <= 8"),
     (r"::(LFUPolicy|AsyncLFUPolicy)::add$", "std-op", r"Vec::drain\(\w+, .*RangeFrom",
@@ -328,6 +326,29 @@ def check_panic_sites(rep, fl, rule="R20.2"):
         elif kind == "std-op":
             desc = "%s(%s)" % (short(b.callee_of(t)), ", ".join(show(norm(x)) for x in b.call_args(t)))
             desc = desc[:160]
+            if callee_matches(b.callee_of(t), "Sub::sub") or (" as std::ops::Sub>::sub" in b.callee_of(t)):
+                # `x - y` on a type whose subtraction panics on underflow (Duration, Instant): every path to it
+                # has compared the same two operands and knows x >= y
+                a = [norm(b.expand(norm(x_))) for x_ in b.call_args(t)]
+                at_, entry_ = dataflow(b)
+                sts_ = [expand_state(b, s_, hist=True) for s_ in at_.get((bi, term_idx(b, bi)), set())]
+
+                def _ge(s_, x_, y_):
+                    for l_, v_ in s_.lits:
+                        op_ = None
+                        if l_[0] == "call" and l_[1].startswith("std::cmp::PartialOrd::") and len(l_[2]) == 2:
+                            op_, p_, q_ = l_[1].rsplit("::", 1)[1], norm(b.expand(l_[2][0])), norm(b.expand(l_[2][1]))
+                        elif l_[0] == "bin" and l_[1] in ("Le", "Lt", "Ge", "Gt"):
+                            op_, p_, q_ = l_[1].lower(), norm(b.expand(l_[2])), norm(b.expand(l_[3]))
+                        if op_ is None:
+                            continue
+                        if (p_, q_) == (x_, y_) and ((op_ in ("ge", "gt") and v_ is True) or (op_ in ("le", "lt") and v_ is False)):
+                            return True
+                        if (p_, q_) == (y_, x_) and ((op_ in ("le", "lt") and v_ is True) or (op_ in ("ge", "gt") and v_ is False)):
+                            return True
+                    return False
+                if len(a) == 2 and sts_ and all(_ge(s_, a[0], a[1]) for s_ in sts_):
+                    cls = "subtraction guarded by a comparison of the same operands (minuend >= subtrahend on every path)"
         if cls is None:
             # audited table
             for fre, k2, ore, why in AUDITED:
